@@ -436,6 +436,22 @@ pub fn map_op<const N: usize>(cx: &mut Cx, m: &mut MapN<N>, op: &MapOp) -> Strin
         MapOp::SerdeWrong => serde_rt::wrong_map::<N>(),
         #[cfg(not(feature = "serde"))]
         MapOp::SerdeWrong => "[unsupported]".into(),
+        MapOp::ClonePlain(xs) => {
+            use crate::types::{PK, PLAIN_CLONES, PV};
+            let mut src: Map<PK, PV, N> = mm(Map::new);
+            for (k, v) in xs {
+                mm(|| src.insert(PK(*k), PV(*v)));
+            }
+            PLAIN_CLONES.with(|c| c.set((0, 0)));
+            let c = mm(|| src.clone());
+            let (kc, vc) = PLAIN_CLONES.with(|c| c.get());
+            let items: Vec<String> = c.iter().map(|(k, v)| format!("{}:{}", k.0, v.0)).collect();
+            format!("[{},{},{},[{}],{}]", mm(|| c.len()), kc, vc, items.join(","), (c == src) as u8)
+        }
+        #[cfg(feature = "serde")]
+        MapOp::SerdeZst(k) => serde_rt::zst_map::<N>(*k),
+        #[cfg(not(feature = "serde"))]
+        MapOp::SerdeZst(_) => "[unsupported]".into(),
         MapOp::Defaults => {
             let d: MapN<N> = mm(Map::default);
             let mut out = vec![format!("{}", mm(|| d.len())), format!("{}", mm(|| d.capacity()))];
@@ -791,6 +807,22 @@ pub fn set_op<const N: usize>(cx: &mut Cx, s: &mut SetN<N>, op: &SetOp) -> Strin
         SetOp::SerdeWrong => serde_rt::wrong_set::<N>(),
         #[cfg(not(feature = "serde"))]
         SetOp::SerdeWrong => "[unsupported]".into(),
+        SetOp::ClonePlain(xs) => {
+            use crate::types::{PK, PLAIN_CLONES};
+            let mut src: Set<PK, N> = mm(Set::new);
+            for (k, _) in xs {
+                mm(|| src.insert(PK(*k)));
+            }
+            PLAIN_CLONES.with(|c| c.set((0, 0)));
+            let c = mm(|| src.clone());
+            let (kc, vc) = PLAIN_CLONES.with(|c| c.get());
+            let items: Vec<String> = c.iter().map(|k| format!("{}", k.0)).collect();
+            format!("[{},{},{},[{}],{}]", mm(|| c.len()), kc, vc, items.join(","), (c == src) as u8)
+        }
+        #[cfg(feature = "serde")]
+        SetOp::SerdeZst(k) => serde_rt::zst_set::<N>(*k),
+        #[cfg(not(feature = "serde"))]
+        SetOp::SerdeZst(_) => "[unsupported]".into(),
         SetOp::Defaults => {
             let d: SetN<N> = mm(Set::default);
             format!("[{},{}]", mm(|| d.len()), mm(|| d.capacity()))
@@ -1043,6 +1075,48 @@ pub mod serde_rt {
         match r {
             Ok((m, used)) if used == b.len() => Some(m),
             _ => None,
+        }
+    }
+    /// `[announced length, elements serialized, len after decoding]` for a container of zero-sized
+    /// elements (`k` insertions of the one value there is)
+    pub fn zst_set<const N: usize>(k: usize) -> String {
+        use crate::types::{Z, ZST_SERIALIZED};
+        let mut s: micromap::Set<Z, N> = micromap::Set::new();
+        for _ in 0..k {
+            crate::ctl::mm(|| s.insert(Z));
+        }
+        let mut buf = [0u8; 64];
+        ZST_SERIALIZED.with(|c| c.set(0));
+        let Ok(n) = crate::ctl::mm(|| encode_into_slice(&s, &mut buf, bincode::config::legacy())) else {
+            return "[encode-error]".into();
+        };
+        let ann = u64::from_le_bytes(buf[..8].try_into().unwrap());
+        let cnt = ZST_SERIALIZED.with(|c| c.get());
+        let r: Result<(micromap::Set<Z, N>, usize), _> =
+            crate::ctl::mm(|| decode_from_slice(&buf[..n], bincode::config::legacy()));
+        match r {
+            Ok((d, _)) => format!("[{},{},{}]", ann, cnt, d.len()),
+            Err(_) => format!("[{},{},decode-error]", ann, cnt),
+        }
+    }
+    pub fn zst_map<const N: usize>(k: usize) -> String {
+        use crate::types::{Z, ZST_SERIALIZED};
+        let mut s: micromap::Map<Z, Z, N> = micromap::Map::new();
+        for _ in 0..k {
+            crate::ctl::mm(|| s.insert(Z, Z));
+        }
+        let mut buf = [0u8; 64];
+        ZST_SERIALIZED.with(|c| c.set(0));
+        let Ok(n) = crate::ctl::mm(|| encode_into_slice(&s, &mut buf, bincode::config::legacy())) else {
+            return "[encode-error]".into();
+        };
+        let ann = u64::from_le_bytes(buf[..8].try_into().unwrap());
+        let cnt = ZST_SERIALIZED.with(|c| c.get());
+        let r: Result<(micromap::Map<Z, Z, N>, usize), _> =
+            crate::ctl::mm(|| decode_from_slice(&buf[..n], bincode::config::legacy()));
+        match r {
+            Ok((d, _)) => format!("[{},{},{}]", ann, cnt / 2, d.len()),
+            Err(_) => format!("[{},{},decode-error]", ann, cnt),
         }
     }
     pub fn wrong_map<const N: usize>() -> String {
